@@ -392,3 +392,29 @@ Proof.
   - apply in_map. exact Ha.
   - apply in_map. exact Hb.
 Qed.
+
+(* ------------------------------------------------------------------------------------------------ 1809: http-mapped requests *)
+Lemma check_1809_ok_agree : forall bits bk body src mask o0 e0 o1 e1 o2 e2 op ep,
+  check_1809 [FZ bits; FZ bk; FB body; FB src; FZ mask; FB o0; FZ e0; FB o1; FZ e1; FB o2; FZ e2; FB op; FZ ep] = VOk ->
+  let all := (ep, op) :: sel mask [(e0, o0); (e1, o1); (e2, o2)] in
+  (forall r, In r all -> fst r <> 0) \/ (forall r, In r all -> fst r = 0 /\ snd r = op).
+Proof.
+  intros bits bk body src mask o0 e0 o1 e1 o2 e2 op ep H. cbv zeta. unfold check_1809 in H.
+  set (nats := sel mask [(e0, o0); (e1, o1); (e2, o2)]) in *.
+  destruct (existsb (fun r => fst r =? 5) ((ep, op) :: nats)); [discriminate H|].
+  destruct (existsb (fun r => fst r =? 3) ((ep, op) :: nats)); [discriminate H|].
+  destruct nats as [|n0 nats']; [discriminate H|].
+  destruct (all_same res_eqb (n0 :: nats')) eqn:Esame; cbn [negb] in H; [|discriminate H].
+  destruct (res_eqb n0 (ep, op)) eqn:Hr.
+  2:{ exfalso. revert H. clear.
+      repeat match goal with
+             | |- context [if ?c then _ else _] => destruct c
+             | |- context [match ?x with _ => _ end] => destruct x
+             end; intros H; discriminate H. }
+  clear H. rename Hr into H. unfold all_same in Esame. rewrite forallb_forall in Esame.
+  destruct (res_eqb_spec _ _ H) as [[Hn Hp]|[Hn [Hp Ho]]]; cbn [fst snd] in *.
+  - left. intros r [<-|[<-|Hin]]; cbn [fst]; [exact Hp|exact Hn|].
+    destruct (res_eqb_spec _ _ (Esame _ Hin)) as [[_ Hr]|[He _]]; [exact Hr|contradiction].
+  - right. intros r [<-|[<-|Hin]]; cbn [fst snd]; [auto|auto|].
+    destruct (res_eqb_spec _ _ (Esame _ Hin)) as [[He _]|[_ [Hr Ho']]]; [contradiction|]. split; [exact Hr|congruence].
+Qed.
